@@ -514,6 +514,8 @@ def textBlock (s : Tcb) (seg : Hdr) (text : List UInt8) (textLen : Seq) : B :=
     if !(s.isInRcvWindow seg.seq || s.isInRcvWindow (seg.seq + textLen)) then
       .error "panic:assert:process_segment.text_in_window" else
     let alreadyReceived : Seq := s.rcv.nxt - seg.seq - BitVec.ofNat 32 seg.ctl.syn.toNat
+    -- .min(text_len)
+    let alreadyReceived : Seq := if alreadyReceived ≤ textLen then alreadyReceived else textLen
     if textLen.toNat < alreadyReceived.toNat then .error "panic:sub-overflow:process_segment.unreceived" else
     let unreceived := textLen.toNat - alreadyReceived.toNat
     let inLen := s.incoming.text.length % 4294967296
